@@ -86,6 +86,18 @@ func (node *Node) resolveInputs(fork ForkId, keepSplit bool) ([]string, Marshale
 	return mapped, result, errs.If()
 }
 
+// splitMapType returns the type of a map whose values, of type t, are split
+// over the forks of a map call.
+//
+// If t is itself a typed map then that is map<map<...>>, which is not a type
+// that can be looked up, but all that is needed is the type of the values.
+func (node *TopNode) splitMapType(t syntax.Type) syntax.Type {
+	if t.TypeId().MapDim != 0 {
+		return &syntax.TypedMapType{Elem: t}
+	}
+	return node.types.GetMap(t)
+}
+
 // Remove the first unmatched split in the expression chain.
 func (node *TopNode) resolveKeepSplit(s *syntax.SplitExp, t syntax.Type,
 	fork ForkId, readSize int64) (json.Marshaler, error) {
@@ -97,7 +109,7 @@ func (node *TopNode) resolveKeepSplit(s *syntax.SplitExp, t syntax.Type,
 				case syntax.ModeArrayCall:
 					outerT = node.types.GetArray(t, 1)
 				case syntax.ModeMapCall:
-					outerT = node.types.GetMap(t)
+					outerT = node.splitMapType(t)
 				case syntax.ModeSingleCall:
 				case syntax.ModeNullMapCall:
 					return nil, nil
@@ -792,7 +804,7 @@ func (node *TopNode) resolveSplit(binding *syntax.SplitExp, t syntax.Type,
 	case syntax.ModeArrayCall:
 		innerT = node.types.GetArray(t, 1)
 	case syntax.ModeMapCall:
-		innerT = node.types.GetMap(t)
+		innerT = node.splitMapType(t)
 	}
 	for i, part := range fork {
 		if part.Split.Call == binding.Call || i == len(fork)-1 {
